@@ -878,6 +878,9 @@ type frame struct {
 type fval struct {
 	v  ssa.Value
 	fr *frame
+	// deref: the value is the struct stored AT address v (an argument instantiated with one entry of a
+	// table of struct literals: v is the entry's address)
+	deref bool
 }
 
 type frames struct {
@@ -900,7 +903,7 @@ func (F *frames) calleeOf(cc *ssa.CallCommon, fr *frame) (*ssa.Function, []fval)
 	if cc.IsInvoke() {
 		return nil, nil
 	}
-	x := F.resolve(fval{cc.Value, fr})
+	x := F.resolve(fval{v: cc.Value, fr: fr})
 	switch f := x.v.(type) {
 	case *ssa.Function:
 		return f, nil
@@ -908,7 +911,7 @@ func (F *frames) calleeOf(cc *ssa.CallCommon, fr *frame) (*ssa.Function, []fval)
 		fn, _ := f.Fn.(*ssa.Function)
 		var free []fval
 		for _, b := range f.Bindings {
-			free = append(free, fval{b, x.fr})
+			free = append(free, fval{v: b, fr: x.fr})
 		}
 		return fn, free
 	}
@@ -934,7 +937,7 @@ func (F *frames) callFrame(call ssa.CallInstruction, fr *frame) (*ssa.Function, 
 	F.n++
 	f := &frame{fn: fn, free: free, id: F.n}
 	for _, a := range cc.Args {
-		f.args = append(f.args, fval{a, fr})
+		f.args = append(f.args, fval{v: a, fr: fr})
 	}
 	if len(f.args) != len(fn.Params) {
 		return nil, nil
@@ -984,12 +987,30 @@ func (F *frames) resolve(x fval) fval {
 				return x
 			}
 			x = x.fr.free[idx]
+		case *ssa.Field:
+			// field of a struct value whose literal is known (a table entry, a captured receiver)
+			if b, ok := F.valueStructBase(fval{v: v.X, fr: x.fr}, 0); ok {
+				if vs := fieldStores(b.v, fieldName(v)); len(vs) == 1 {
+					x = fval{v: vs[0], fr: b.fr}
+					continue
+				}
+			}
+			return x
 		case *ssa.UnOp:
 			if v.Op != token.MUL {
 				return x
 			}
+			if fa, isFA := v.X.(*ssa.FieldAddr); isFA {
+				if b, ok := F.structBase(fval{v: fa.X, fr: x.fr}, 0); ok {
+					if vs := fieldStores(b.v, fieldName(fa)); len(vs) == 1 {
+						x = fval{v: vs[0], fr: b.fr}
+						continue
+					}
+				}
+				return x
+			}
 			// load of a variable cell reached through a free variable / parameter: the single stored value
-			inner := F.resolve(fval{v.X, x.fr})
+			inner := F.resolve(fval{v: v.X, fr: x.fr})
 			a, ok := inner.v.(*ssa.Alloc)
 			if !ok || (inner.v == v.X && inner.fr == x.fr) {
 				return x
@@ -998,7 +1019,7 @@ func (F *frames) resolve(x fval) fval {
 			if len(sts) != 1 {
 				return x
 			}
-			x = fval{sts[0].Val, inner.fr}
+			x = fval{v: sts[0].Val, fr: inner.fr}
 		case *ssa.Call, *ssa.Extract:
 			var call *ssa.Call
 			idx := 0
@@ -1028,12 +1049,79 @@ func (F *frames) resolve(x fval) fval {
 			if rv == nil {
 				return x
 			}
-			x = fval{rv, fr2}
+			x = fval{v: rv, fr: fr2}
 		default:
 			return x
 		}
 	}
 	return x
+}
+
+// structBase follows the address of a struct to the place where its fields were stored once: through
+// captured variables, through a local copy of a struct value, through a value parameter to the
+// argument (for an argument instantiated with a table entry: the entry itself). Only resolutions
+// that leave the current frame are reported (a plain local struct is left to the caller).
+func (F *frames) structBase(addr fval, depth int) (fval, bool) {
+	if depth > 8 {
+		return fval{}, false
+	}
+	switch a := addr.v.(type) {
+	case *ssa.FreeVar:
+		r := F.resolve(addr)
+		if r.v == addr.v && r.fr == addr.fr {
+			return fval{}, false
+		}
+		if r.deref {
+			return fval{v: r.v, fr: r.fr}, true
+		}
+		return F.structBaseAny(r, depth+1)
+	case *ssa.Parameter:
+		r := F.resolve(addr)
+		if r.v == addr.v && r.fr == addr.fr {
+			return fval{}, false
+		}
+		return F.structBaseAny(r, depth+1)
+	case *ssa.Alloc:
+		sts := cellStores(a)
+		if len(sts) == 1 {
+			return F.valueStructBase(fval{v: sts[0].Val, fr: addr.fr}, depth+1)
+		}
+	}
+	return fval{}, false
+}
+
+// structBaseAny: like structBase, but an address that is itself a literal (alloc / element) is a base.
+func (F *frames) structBaseAny(addr fval, depth int) (fval, bool) {
+	if b, ok := F.structBase(addr, depth); ok {
+		return b, true
+	}
+	switch addr.v.(type) {
+	case *ssa.Alloc, *ssa.IndexAddr:
+		return addr, true
+	}
+	return fval{}, false
+}
+
+// valueStructBase: the literal a struct VALUE was loaded from / instantiated with.
+func (F *frames) valueStructBase(val fval, depth int) (fval, bool) {
+	if depth > 8 {
+		return fval{}, false
+	}
+	if val.deref {
+		return fval{v: val.v, fr: val.fr}, true
+	}
+	switch v := val.v.(type) {
+	case *ssa.Parameter:
+		if val.fr == nil || val.fr.args == nil || v.Parent() != val.fr.fn {
+			return fval{}, false
+		}
+		return F.valueStructBase(val.fr.args[paramIndex(v)], depth+1)
+	case *ssa.UnOp:
+		if v.Op == token.MUL {
+			return F.structBase(fval{v: v.X, fr: val.fr}, depth+1)
+		}
+	}
+	return fval{}, false
 }
 
 // loc returns the object a value/address is rooted at (through loads, fields, elements, helper
@@ -1043,12 +1131,12 @@ func (F *frames) loc(x fval) (fval, []string) {
 	for i := 0; i < 24; i++ {
 		root, p := deepPath(x.v)
 		path = append(append([]string{}, p...), path...)
-		r := F.resolve(fval{root, x.fr})
+		r := F.resolve(fval{v: root, fr: x.fr})
 		if a, ok := r.v.(*ssa.Alloc); ok && (r.v != root || r.fr != x.fr) {
 			// a capture cell holding a pointer / function: continue with the stored value
 			if _, isStruct := a.Type().Underlying().(*types.Pointer).Elem().Underlying().(*types.Struct); !isStruct {
 				if sts := cellStores(a); len(sts) == 1 {
-					x = fval{sts[0].Val, r.fr}
+					x = fval{v: sts[0].Val, fr: r.fr}
 					continue
 				}
 			}
